@@ -27,7 +27,7 @@ PROPS = {
                     '(decreases MAX_NESTING_DEPTH - depth).'),
         not_decided=('serde_json (Hayson driver) and the visit_map/visit_seq impls; panics inside chrono, f64::from_str, '
                      'get_unit (assumed none); the chrono tail of parse_datetime (trusted contract; parse_time_zone is verified, with Duration/FixedOffset of chrono seen through their seconds); '
-                     'Scanner::expect_and_consume_seq (enumerate loop, trusted); allocation failure; that '
+                     'allocation failure; that '
                      'MAX_NESTING_DEPTH frames fit the native stack.'),
     ),
     'C09': dict(
